@@ -971,8 +971,93 @@ fn case_list(f: &Forest, args: &Args) -> Vec<Case> {
 // ------------------------------------------------------------------------------------------------
 // scenarios without a model line: lazy force, module promotion, spawn, spawn_on, whole-VM drop
 
+/// Scenario bookkeeping: every scenario unit announces itself (progress file) before it starts, so
+/// that a death of the process is attributed to the exact unit, and a restarted child skips the
+/// units already done.  The class of a unit that exercises an OPEN known finding carries the
+/// finding's name (`module-cell`, `vm-drop-closure`, `vm-drop-record`).
+struct Scen {
+    next: usize,
+    start: usize,
+    progress: std::path::PathBuf,
+}
+static SCEN: std::sync::Mutex<Option<Scen>> = std::sync::Mutex::new(None);
+
+/// Returns false when the unit was already done by an earlier child.
+fn scen_begin(class: &str) -> bool {
+    let mut g = SCEN.lock().unwrap();
+    match g.as_mut() {
+        Some(sc) => {
+            let n = sc.next;
+            sc.next += 1;
+            if n < sc.start {
+                return false;
+            }
+            std::fs::write(&sc.progress, format!("scenario {} {}", n, class)).ok();
+            // self-test of the attribution: C13_TEST_ABORT=<class> kills the process in the first unit of that class
+            if std::env::var("C13_TEST_ABORT").map(|c| c == class).unwrap_or(false) && !sc.progress.with_file_name("test_abort_done").exists() {
+                std::fs::write(sc.progress.with_file_name("test_abort_done"), "x").ok();
+                std::process::abort();
+            }
+            true
+        }
+        None => true,
+    }
+}
+/// The class of the unit in progress is known better now (same unit number).
+fn scen_reclass(class: &str) {
+    let g = SCEN.lock().unwrap();
+    if let Some(sc) = g.as_ref() {
+        std::fs::write(&sc.progress, format!("scenario {} {}", sc.next - 1, class)).ok();
+        if std::env::var("C13_TEST_ABORT").map(|c| c == class).unwrap_or(false) && !sc.progress.with_file_name("test_abort_done").exists() {
+            std::fs::write(sc.progress.with_file_name("test_abort_done"), "x").ok();
+            std::process::abort();
+        }
+    }
+}
+
+fn is_cell_kind(name: &str) -> bool {
+    name.starts_with("reference") || name.starts_with("lazy") || name.starts_with("corpus-reference")
+}
+
 fn scenario_json(name: &str, detail: &str) -> serde_json::Value {
     serde_json::json!({"scenario": name, "detail": detail})
+}
+
+/// module promotion: the value of a module is cloned into the global heap.  `cells`: only the kinds
+/// whose value is a Reference / Lazy (the open known finding), or only the others.
+fn module_promotions(f: &mut Forest, out: &mut Out, args: &Args, cells: bool) {
+    let kinds = fixed_kinds();
+    for (i, kind) in kinds.iter().enumerate() {
+        if kind.name == "channel-record" || is_cell_kind(&kind.name) != cells {
+            continue;
+        }
+        for tn in ["R", "A", "AA"] {
+            if !args.thorough() && tn != "R" && i % 3 != 0 {
+                continue;
+            }
+            if !scen_begin(if cells { "module-cell" } else { "module-promotion" }) {
+                continue;
+            }
+            let ti = f.th(tn);
+            let module = format!("c13mod_{}_{}", tn.to_lowercase(), i);
+            let case = scenario_json("module-promotion", &format!("module {} = {} loaded by thread {}", module, kind.name, tn));
+            out.hist.add("scenario:module-promotion");
+            let th = f.ths[ti].thread.clone();
+            if let Err(e) = th.load_script(&module, &kind.src) {
+                out.violation("c13:scenario-error:load-script", "load_script failed", &case, "ok", &format!("{}", e));
+                continue;
+            }
+            match th.get_global::<OpaqueValue<&gluon::Thread, Hole>>(&module) {
+                Ok(v) => {
+                    let g = verif::graph(v.get_value());
+                    let hroot = f.root(f.ths[ti].heap);
+                    check_owned(f, &g, hroot, "module", &case, out, "promotion");
+                    out.n += 1;
+                }
+                Err(e) => out.violation("c13:scenario-error:get-global", "get_global failed", &case, "ok", &format!("{}", e)),
+            }
+        }
+    }
 }
 
 fn scenarios(f: &mut Forest, out: &mut Out, args: &Args) {
@@ -981,6 +1066,9 @@ fn scenarios(f: &mut Forest, out: &mut Out, args: &Args) {
     for (x, s) in [("R", "A"), ("R", "AA"), ("A", "AB"), ("A", "A"), ("U", "UA")] {
         let (xi, si) = (f.th(x), f.th(s));
         for body in ["{ v = append \"l\" \"z\", w = [append \"a\" \"b\"] }", "let r = { v = 1 } in { f = \\y -> keep r y, r }", "[[1], [2]]"] {
+            if !scen_begin("lazy-force") {
+                continue;
+            }
             let case = scenario_json("lazy-force", &format!("lazy in {} forced in {}: {}", x, s, body));
             out.hist.add("scenario:lazy-force");
             let src = format!("{}lazy (\\_ -> {})", HDR, body);
@@ -1012,37 +1100,9 @@ fn scenarios(f: &mut Forest, out: &mut Out, args: &Args) {
             }
         }
     }
-    // --- module promotion: the value of a module is cloned into the global heap
-    for (i, kind) in kinds.iter().enumerate() {
-        if kind.name == "channel-record" {
-            continue;
-        }
-        for tn in ["R", "A", "AA"] {
-            if !args.thorough() && tn != "R" && i % 3 != 0 {
-                continue;
-            }
-            let ti = f.th(tn);
-            let module = format!("c13mod_{}_{}", tn.to_lowercase(), i);
-            let case = scenario_json("module-promotion", &format!("module {} = {} loaded by thread {}", module, kind.name, tn));
-            out.hist.add("scenario:module-promotion");
-            let th = f.ths[ti].thread.clone();
-            if let Err(e) = th.load_script(&module, &kind.src) {
-                out.violation("c13:scenario-error:load-script", "load_script failed", &case, "ok", &format!("{}", e));
-                continue;
-            }
-            match th.get_global::<OpaqueValue<&gluon::Thread, Hole>>(&module) {
-                Ok(v) => {
-                    let g = verif::graph(v.get_value());
-                    let hroot = f.root(f.ths[ti].heap);
-                    check_owned(f, &g, hroot, "module", &case, out, "promotion");
-                    out.n += 1;
-                }
-                Err(e) => out.violation("c13:scenario-error:get-global", "get_global failed", &case, "ok", &format!("{}", e)),
-            }
-        }
-    }
+    module_promotions(f, out, args, false);
     // --- spawn: the action is shared with the child; the child sends fresh values to the parent's channel
-    {
+    if scen_begin("spawn") {
         let case = scenario_json("spawn", "parent A spawns a child that sends a fresh record through A's channel");
         out.hist.add("scenario:spawn");
         let src = format!(
@@ -1069,6 +1129,9 @@ fn scenarios(f: &mut Forest, out: &mut Out, args: &Args) {
     }
     // --- spawn_on: the action (allocated by the caller) is run by another thread
     for (caller, target) in [("A", "AA"), ("AA", "A"), ("A", "B")] {
+        if !scen_begin("spawn_on") {
+            continue;
+        }
         let case = scenario_json("spawn_on", &format!("thread {} runs `spawn_on {}` with an action closing over fresh data", caller, target));
         out.hist.add("scenario:spawn_on");
         let (ci, ti) = (f.th(caller), f.th(target));
@@ -1139,6 +1202,9 @@ fn vm_drop_cases(f: &mut Forest, out: &mut Out, args: &Args) {
             if !args.thorough() && tn == "AA" && i % 4 != 0 {
                 continue;
             }
+            if !scen_begin("vm-drop-setup") {
+                continue;
+            }
             let ti = f.th(tn);
             let case = serde_json::json!({"kind": kind.name, "src": kind.src, "s": "fresh-vm", "t": tn, "route": if i % 2 == 0 { "reroot" } else { "push" }, "order": "drop-sender-vm", "rel": "unrelated"});
             out.hist.add("scenario:vm-drop");
@@ -1147,6 +1213,7 @@ fn vm_drop_cases(f: &mut Forest, out: &mut Out, args: &Args) {
             }
             let w;
             let sh_src;
+            let known_class;
             {
                 let vm = new_vm();
                 let child = vm.new_thread().unwrap();
@@ -1155,7 +1222,17 @@ fn vm_drop_cases(f: &mut Forest, out: &mut Out, args: &Args) {
                     Ok(v) => v.0.into_inner(),
                     Err(_) => continue,
                 };
-                sh_src = shape(&verif::graph(v.get_value()));
+                let g_src = verif::graph(v.get_value());
+                sh_src = shape(&g_src);
+                // what the value holds decides which open finding a later touch of it belongs to
+                known_class = if g_src.nodes.iter().any(|n| n.kind == "closure" || n.kind == "bytecode") {
+                    Some("vm-drop-closure")
+                } else if g_src.nodes.iter().any(|n| !n.names.is_empty()) {
+                    Some("vm-drop-record")
+                } else {
+                    None
+                };
+                scen_reclass(known_class.unwrap_or("vm-drop-plain"));
                 w = if i % 2 == 0 {
                     v.re_root(f.ths[ti].thread.clone()).map_err(|e| format!("{}", e))
                 } else {
@@ -1174,6 +1251,12 @@ fn vm_drop_cases(f: &mut Forest, out: &mut Out, args: &Args) {
                 out.violation("c13:changed-after-vm-drop", "the received value renders differently after the sending VM was dropped", &case, &sh_src, &shape(&g));
             }
             out.n += 1;
+            if known_class.is_some() {
+                // the receiver now holds a value that points into a VM that is gone (open finding):
+                // nothing later may run on this forest
+                drop(w);
+                std::mem::forget(std::mem::replace(f, Forest::new()));
+            }
         }
     }
 }
@@ -1186,6 +1269,7 @@ fn open(args: &Args, name: &str, append: bool) -> std::io::BufWriter<std::fs::Fi
 }
 
 fn child_main(args: &Args, start: usize) {
+    let scen_start: usize = args.extra.get("scen").and_then(|s| s.parse().ok()).unwrap_or(0);
     verif::set_quarantine(true);
     verif::set_stride(0);
     let mut f = Forest::new();
@@ -1235,11 +1319,26 @@ fn child_main(args: &Args, start: usize) {
         }
     }
     out.flush();
-    std::fs::write(&progress, "scenarios").unwrap();
+    {
+        // what the transfer cases counted is safe whatever happens in the scenario phase
+        let mut fpart = std::fs::OpenOptions::new().create(true).append(true).open(args.out.join("stats_parts.jsonl")).unwrap();
+        writeln!(fpart, "{}", serde_json::json!({"n": out.n, "nviol": out.nviol, "distinct": out.distinct.len(), "hist": out.hist.to_json()})).unwrap();
+        out.n = 0;
+        out.nviol = 0;
+        out.distinct.clear();
+        out.hist = Hist::default();
+    }
+    *SCEN.lock().unwrap() = Some(Scen { next: 0, start: scen_start, progress: progress.clone() });
+    std::fs::write(&progress, "scenario-phase").unwrap();
     let r = catch_unwind(AssertUnwindSafe(|| {
+        // units that exercise an open known finding come last, each on a forest nothing else uses
         scenarios(&mut f, &mut out, args);
+        std::mem::forget(std::mem::replace(&mut f, Forest::new()));
+        module_promotions(&mut f, &mut out, args, true);
+        std::mem::forget(std::mem::replace(&mut f, Forest::new()));
         vm_drop_cases(&mut f, &mut out, args);
     }));
+    *SCEN.lock().unwrap() = None;
     if r.is_err() {
         out.violation("c13:panic:scenarios", "a scenario panicked", &serde_json::json!({}), "no panic", "panic");
     }
@@ -1249,6 +1348,10 @@ fn child_main(args: &Args, start: usize) {
     let mut fpart = std::fs::OpenOptions::new().create(true).append(true).open(path).unwrap();
     writeln!(fpart, "{}", serde_json::json!({"n": out.n, "nviol": out.nviol, "distinct": out.distinct.len(), "hist": out.hist.to_json()})).unwrap();
     std::fs::write(&progress, "done").unwrap();
+    // the forests may hold values of the open findings: do not run their destructors
+    fpart.flush().ok();
+    std::mem::forget(f);
+    std::process::exit(0);
 }
 
 fn replay(path: &str) {
@@ -1276,6 +1379,7 @@ fn replay(path: &str) {
         explained: HashSet::new(),
         };
         scenarios(&mut f, &mut out, &args);
+        module_promotions(&mut f, &mut out, &args, true);
         vm_drop_cases(&mut f, &mut out, &args);
         out.flush();
         let text = std::fs::read_to_string(args.out.join("c13-replay-violations.jsonl")).unwrap_or_default();
@@ -1341,11 +1445,12 @@ fn main() {
     }
     let exe = std::env::current_exe().unwrap();
     let mut start = 0usize;
+    let mut scen = 0usize;
     let mut crashes = 0;
     let budget = std::time::Duration::from_secs(if args.thorough() { 3000 } else { 600 });
     loop {
         let mut child = std::process::Command::new(&exe)
-            .args(["--tier", &args.tier, "--seed", &args.seed.to_string(), "--out", args.out.to_str().unwrap(), "child", &format!("start={}", start)])
+            .args(["--tier", &args.tier, "--seed", &args.seed.to_string(), "--out", args.out.to_str().unwrap(), "child", &format!("start={}", start), &format!("scen={}", scen)])
             .stdout(std::process::Stdio::null())
             .spawn()
             .expect("spawn child");
@@ -1397,11 +1502,28 @@ fn main() {
                 start = i + 1;
             }
             None => {
-                writeln!(viol, "{}", serde_json::json!({"key": "c13:crash:scenarios", "what": what, "case": {"progress": progress}, "expected": "no crash", "observed": what})).unwrap();
-                break;
+                // "scenario <n> <class>": the unit in progress; go on after it
+                let parts: Vec<&str> = progress.split_whitespace().collect();
+                match (parts.first(), parts.get(1).and_then(|x| x.parse::<usize>().ok()), parts.get(2)) {
+                    (Some(&"scenario"), Some(n), Some(class)) => {
+                        writeln!(
+                            viol,
+                            "{}",
+                            serde_json::json!({"key": format!("c13:crash:scenario:{}", class), "what": format!("{} during scenario unit {} of class `{}`", what, n, class),
+                                "case": {"scenario": class, "unit": n, "seed": args.seed, "tier": args.tier}, "expected": "no crash", "observed": what})
+                        )
+                        .unwrap();
+                        start = usize::MAX / 2;
+                        scen = n + 1;
+                    }
+                    _ => {
+                        writeln!(viol, "{}", serde_json::json!({"key": "c13:crash:scenario-phase", "what": what, "case": {"progress": progress}, "expected": "no crash", "observed": what})).unwrap();
+                        break;
+                    }
+                }
             }
         }
-        if crashes >= 5 {
+        if crashes >= 8 {
             break;
         }
     }
